@@ -19,12 +19,12 @@ if $compiles; then
   grep -E "^\s+FAIL" /tmp/wt-confirm.test.log | sed -E 's/.*\) +//' | sort -u > /tmp/wt-confirm.fails.txt
   if cmp -s /tmp/wt-confirm.fails.txt /verif/.cache/baseline-fails.txt; then suite=same-53-failures; else suite="DIFFERS: $(diff /tmp/wt-confirm.fails.txt /verif/.cache/baseline-fails.txt | head -5 | tr '\n' ' ')"; fi
   cp target/debug/zerv /tmp/wt-confirm.zerv-patched
-  ( cd "$out" && timeout 300 sh ./demo.sh /tmp/wt-confirm.zerv-patched >/tmp/wt-confirm.demo1.log 2>&1 ); demo_patched=$?
+  ( cd "$out" && timeout 300 bash ./demo.sh /tmp/wt-confirm.zerv-patched >/tmp/wt-confirm.demo1.log 2>&1 ); demo_patched=$?
 fi
 git checkout -q -- .
 # unchanged binary: the one the checks build from /repo (rebuilt here to be sure it is current)
 ( cd /verif && cargo build --offline --manifest-path /repo/Cargo.toml --bin zerv --target-dir /verif/.cache/zerv-target >/dev/null 2>&1 )
-( cd "$out" && timeout 300 sh ./demo.sh /verif/.cache/zerv-target/debug/zerv >/tmp/wt-confirm.demo0.log 2>&1 ); demo_base=$?
+( cd "$out" && timeout 300 bash ./demo.sh /verif/.cache/zerv-target/debug/zerv >/tmp/wt-confirm.demo0.log 2>&1 ); demo_base=$?
 echo "compiles=$compiles suite=$suite demo_patched_exit=$demo_patched demo_unchanged_exit=$demo_base"
 # the registered checks
 cd /verif
